@@ -10,12 +10,12 @@ def bl(s):
 
 
 def extract(g, X):
-    bu = X.strip_comments(X.read("pdf/src/build.rs"))
-    co = X.strip_comments(X.read("pdf/src/content.rs"))
-    ty = X.strip_comments(X.read("pdf/src/object/types.rs"))
-    om = X.strip_comments(X.read("pdf/src/object/mod.rs"))
-    fi = X.strip_comments(X.read("pdf/src/file.rs"))
-    xr = X.strip_comments(X.read("pdf/src/xref.rs"))
+    bu = X.source("pdf/src/build.rs")
+    co = X.source("pdf/src/content.rs")
+    ty = X.source("pdf/src/object/types.rs")
+    om = X.source("pdf/src/object/mod.rs")
+    fi = X.source("pdf/src/file.rs")
+    xr = X.source("pdf/src/xref.rs")
 
     def struct_fields(src, name):
         """[(rust field, pdf key | None (other), type text)] of `pub struct name`"""
